@@ -1,32 +1,247 @@
 package main
 
-// Channels, select and time.Timer: ghost model used for package timer (C18).
+// Ghost model of the wall clock, buffered channels and time.Timer (used for package timer, C18).
+//
+//   clock:    a ghost integer w; every time.Now() returns a value >= w and advances w (monotone clock, A9)
+//   channel:  a reference with ghost capacity, length (0..cap) and, for capacity 1, the buffered value
+//   time.Timer created by time.NewTimer(x) at clock w: a fresh reference with ghost deadline = w + x;
+//             its channel is timerC(ref); the runtime delivers on it no earlier than the deadline (A9)
 
 import (
 	"go/ast"
+	"go/token"
 	"go/types"
 )
 
+const (
+	clockKey    = "G:$clock"
+	chanLenKey  = "H:$chan.len"
+	chanValKey  = "H:$chan.val"
+	chanCapKey  = "H:$chan.cap"
+	deadlineKey = "H:$timer.deadline"
+)
+
+// lazySpecial gives the not-yet-touched value of a model location ($clock, $chan.*, $timer.*) in an epoch.
+func (x *Exec) lazySpecial(key string, ep *Epoch) *Term {
+	if ep.a != nil {
+		return Ite(ep.cond, x.lazySpecial(key, ep.a), x.lazySpecial(key, ep.b))
+	}
+	name := key[2:]
+	if key[0] == 'H' {
+		name = "heap." + name
+	}
+	if ep.id != "" {
+		name += "@" + ep.id
+	}
+	switch key {
+	case clockKey:
+		return Var(name, SInt)
+	case chanLenKey, chanCapKey, chanValKey, deadlineKey:
+		return Var(name, ArraySort(SRef, SInt))
+	}
+	panic(engineErr("unknown model location %s", key))
+}
+
+func isSpecialKey(key string) bool { return len(key) > 2 && key[2] == '$' }
+
+func (x *Exec) ghostInt(st *State, key string) *Term {
+	if v, ok := st.store[key]; ok {
+		return v.S
+	}
+	t := x.lazySpecial(key, st.epoch)
+	st.store[key] = Scalar(t, nil)
+	return t
+}
+
+func (x *Exec) ghostArr(st *State, key string, elem Sort) *Term {
+	return x.ghostInt(st, key)
+}
+
+func (x *Exec) setGhostArr(st *State, key string, arr *Term) { st.store[key] = Scalar(arr, nil) }
+
+// readClock models time.Now(): a reading not before the previous one.
+func (c *Ctx) readClock() *Term {
+	x := c.x
+	w := x.ghostInt(c.st, clockKey)
+	r := Fresh("now", SInt)
+	c.st.assume(And(Ge(r, w), Ge(r, IntLit(0)), Le(r, IntStr("4611686018427387904"))))
+	c.st.store[clockKey] = Scalar(r, nil)
+	return r
+}
+
 func (c *Ctx) makeChan(e *ast.CallExpr, T types.Type) Value {
-	panic(engineErr("%s: channels not supported here", c.x.pos(e.Pos())))
+	x := c.x
+	capT := IntLit(0)
+	if len(e.Args) > 1 {
+		capT = c.eval(e.Args[1]).S
+	}
+	r := Fresh("chan", SRef)
+	c.st.assume(Neq(r, Nil))
+	c.freshFrom(r)
+	x.setGhostArr(c.st, chanLenKey, Store(x.ghostArr(c.st, chanLenKey, SInt), r, IntLit(0)))
+	x.setGhostArr(c.st, chanCapKey, Store(x.ghostArr(c.st, chanCapKey, SInt), r, capT))
+	return Scalar(r, T)
 }
 
 func (c *Ctx) chanRecv(e *ast.UnaryExpr) Value {
-	panic(engineErr("%s: channel receive not supported here", c.x.pos(e.Pos())))
+	panic(engineErr("%s: blocking channel receive not supported (only inside select with default)", c.x.pos(e.Pos())))
 }
 
 func (c *Ctx) newTimer(d Value, e *ast.CallExpr) Value {
-	panic(engineErr("%s: time.NewTimer not supported here", c.x.pos(e.Pos())))
+	x := c.x
+	now := c.readClock()
+	r := Fresh("timer", SRef)
+	c.st.assume(Neq(r, Nil))
+	c.freshFrom(r)
+	x.setGhostArr(c.st, deadlineKey, Store(x.ghostArr(c.st, deadlineKey, SInt), r, Add(now, d.S)))
+	return Scalar(r, c.typeOf(e))
 }
 
 func (c *Ctx) timerIntrinsic(full string, recv Value, args []Value, e *ast.CallExpr, rt types.Type) (Value, bool) {
+	switch full {
+	case "(*time.Timer).Stop", "(*time.Timer).Reset":
+		c.oblige("nil", exprText(e.Fun), Neq(recv.S, Nil), e.Pos())
+		return c.arbitrary("timer.Stop", rt), true
+	}
 	return Value{}, false
 }
 
-func (x *Exec) selectStmt(fr *Frame, s *ast.SelectStmt, st *State) []*State {
-	panic(engineErr("%s: select not supported here", x.pos(s.Pos())))
+// clockIntrinsic handles time.Now / time.Since inside packages that may read the clock.
+func (c *Ctx) clockIntrinsic(full string, args []Value, rt types.Type) (Value, bool) {
+	switch full {
+	case "time.Now":
+		return Scalar(c.readClock(), rt), true
+	case "time.Since":
+		now := c.readClock()
+		return Scalar(Sub(now, args[0].S), rt), true
+	}
+	return Value{}, false
 }
 
+// selectStmt supports the non-blocking forms: select { case <-ch: ... default: ... } and
+// select { case ch <- v: ... default: ... }.
+func (x *Exec) selectStmt(fr *Frame, s *ast.SelectStmt, st *State) []*State {
+	var deflt *ast.CommClause
+	var comm *ast.CommClause
+	for _, cl := range s.Body.List {
+		cc := cl.(*ast.CommClause)
+		if cc.Comm == nil {
+			deflt = cc
+		} else {
+			if comm != nil {
+				return x.blockingSelect(fr, s, st)
+			}
+			comm = cc
+		}
+	}
+	if deflt == nil {
+		return x.blockingSelect(fr, s, st)
+	}
+	if comm == nil {
+		panic(engineErr("%s: select with only a default clause", x.pos(s.Pos())))
+	}
+	c := x.ctx(fr, st)
+	var chExpr ast.Expr
+	switch cm := comm.Comm.(type) {
+	case *ast.ExprStmt:
+		u, ok := unparen(cm.X).(*ast.UnaryExpr)
+		if !ok || u.Op != token.ARROW {
+			panic(engineErr("%s: unsupported select clause", x.pos(s.Pos())))
+		}
+		chExpr = u.X
+	default:
+		panic(engineErr("%s: unsupported select clause %T", x.pos(s.Pos()), cm))
+	}
+	ch := c.eval(chExpr)
+	lenArr := x.ghostArr(st, chanLenKey, SInt)
+	n := Select(lenArr, ch.S)
+	// receive branch: only if a value is buffered
+	stR := st.Clone()
+	stR.assume(Gt(n, IntLit(0)))
+	x.setGhostArr(stR, chanLenKey, Store(lenArr, ch.S, Sub(n, IntLit(1))))
+	outs := x.block(fr, comm.Body, []*State{stR})
+	stD := st.Clone()
+	stD.assume(Le(n, IntLit(0)))
+	outs = append(outs, x.block(fr, deflt.Body, []*State{stD})...)
+	return x.join(outs)
+}
+
+// sendStmt: ch <- v must not block (there is no other goroutine in the model): obligation len < cap.
 func (x *Exec) sendStmt(fr *Frame, s *ast.SendStmt, st *State) []*State {
-	panic(engineErr("%s: channel send not supported here", x.pos(s.Pos())))
+	c := x.ctx(fr, st)
+	ch := c.eval(s.Chan)
+	v := c.eval(s.Value)
+	lenArr := x.ghostArr(st, chanLenKey, SInt)
+	capArr := x.ghostArr(st, chanCapKey, SInt)
+	n := Select(lenArr, ch.S)
+	c.oblige("nil", exprText(s.Chan), Neq(ch.S, Nil), s.Pos())
+	c.oblige("send-blocks", exprText(s.Chan), Lt(n, Select(capArr, ch.S)), s.Pos())
+	x.setGhostArr(st, chanLenKey, Store(lenArr, ch.S, Add(n, IntLit(1))))
+	if v.Kind == KScalar && v.S.Sort == SInt {
+		x.setGhostArr(st, chanValKey, Store(x.ghostArr(st, chanValKey, SInt), ch.S, v.S))
+	}
+	return one(st)
+}
+
+// freshFrom: a newly allocated object differs from every reference currently held in a variable or field.
+func (c *Ctx) freshFrom(r *Term) {
+	stores := []map[string]Value{c.st.store}
+	if c.fr != nil && len(c.x.frames) > 0 {
+		if es := c.x.entryState(c.fr); es != nil {
+			stores = append(stores, es.store)
+		}
+	}
+	for _, store := range stores {
+		for _, v := range store {
+			if v.Kind == KScalar && v.S != nil && v.S.Sort == SRef && v.S != r && v.S != Nil {
+				c.st.assume(Neq(r, v.S))
+			}
+		}
+	}
+}
+
+// blockingSelect: a select without default waits for one of its clauses; which one fires is
+// not determined here (environment choice), a received value is arbitrary.
+func (x *Exec) blockingSelect(fr *Frame, s *ast.SelectStmt, st *State) []*State {
+	var outs []*State
+	// all channel operands are evaluated first, in source order
+	for _, cl := range s.Body.List {
+		cc := cl.(*ast.CommClause)
+		if cc.Comm == nil {
+			panic(engineErr("%s: blocking select with default", x.pos(s.Pos())))
+		}
+		var recv *ast.UnaryExpr
+		switch cm := cc.Comm.(type) {
+		case *ast.ExprStmt:
+			recv, _ = unparen(cm.X).(*ast.UnaryExpr)
+		case *ast.AssignStmt:
+			if len(cm.Rhs) == 1 {
+				recv, _ = unparen(cm.Rhs[0]).(*ast.UnaryExpr)
+			}
+		}
+		if recv == nil || recv.Op != token.ARROW {
+			panic(engineErr("%s: only receive clauses are supported in a blocking select", x.pos(cc.Pos())))
+		}
+		x.ctx(fr, st).eval(recv.X)
+	}
+	for _, cl := range s.Body.List {
+		cc := cl.(*ast.CommClause)
+		sc := st.Clone()
+		if as, ok := cc.Comm.(*ast.AssignStmt); ok && len(as.Lhs) >= 1 {
+			if id, ok := as.Lhs[0].(*ast.Ident); ok && id.Name != "_" {
+				T := x.ctx(fr, sc).typeOf(as.Rhs[0])
+				if tup, ok := T.(*types.Tuple); ok {
+					T = tup.At(0).Type()
+				}
+				v := x.freshValue("recv."+id.Name, T)
+				if as.Tok == token.DEFINE {
+					x.defineVar(fr, sc, id, v)
+				} else {
+					x.assign(x.ctx(fr, sc), id, v)
+				}
+			}
+		}
+		outs = append(outs, x.block(fr, cc.Body, []*State{sc})...)
+	}
+	return x.join(outs)
 }
